@@ -353,6 +353,37 @@ def run(ctx):
         ctx.fail("C04.R3", "drain-reused", pi.file, pi.node.lineno, pi.qual,
                  "PIDs found recycled by is_running() are no longer evicted: the stale "
                  "object would keep being yielded for the new process")
+    # ... nothing but that drain takes a flag away: a cache_clear() (or anything else)
+    # that empties _pids_reused loses the flags of objects a still-running iteration
+    # is about to publish again
+    takers = []
+    for g_ in repo.all_funcs("psutil"):
+        for x_ in ast.walk(g_.node):
+            if isinstance(x_, ast.Call) and isinstance(x_.func, ast.Attribute) \
+                    and dotted(x_.func.value) == "_pids_reused" \
+                    and x_.func.attr in ("clear", "pop", "discard", "remove", "difference_update",
+                                         "intersection_update"):
+                takers.append((g_, x_))
+            elif isinstance(x_, ast.Assign) and any(dotted(t_) == "_pids_reused" for t_ in x_.targets):
+                takers.append((g_, x_))
+    m_ = repo.mod("psutil")
+    for x_ in ast.walk(m_.tree):
+        if isinstance(x_, ast.Lambda) and any(
+                isinstance(y_, ast.Call) and isinstance(y_.func, ast.Attribute)
+                and dotted(y_.func.value) == "_pids_reused" and y_.func.attr == "clear"
+                for y_ in ast.walk(x_)):
+            takers.append((None, x_))
+    bad_t = [(g_, x_) for g_, x_ in takers if g_ is None or g_.qual != "process_iter"]
+    if bad_t:
+        g_, x_ = bad_t[0]
+        ctx.fail("C04.R3", "reused-flags-kept", pi.file, getattr(x_, "lineno", 0),
+                 g_.qual if g_ is not None else "<lambda>",
+                 f"`{norm_stmt(x_)[:60]}` removes recycled-PID flags outside process_iter()'s own "
+                 f"drain: an object found recycled while an iteration is in progress is published "
+                 f"again without its flag and is yielded for ever")
+    else:
+        ctx.ok("C04.R3", "reused-flags-kept", nontrivial=False,
+               sample="only process_iter() pops from _pids_reused")
     # ... and the producer side: every recycled verdict is published, whatever the
     # state of the cache at that moment
     from .c02 import publish_conditions
